@@ -24,7 +24,7 @@ HARNESSES.append(_h5)
 import importlib.util as _ilu
 _rp = _ilu.spec_from_file_location('realspec', os.path.join(os.path.dirname(os.path.abspath(__file__)), '..', 'real', 'spec.py'))
 _real = _ilu.module_from_spec(_rp); _rp.loader.exec_module(_real)
-HARNESSES += [x for x in _real.HARNESSES if x['name'] == 'h_real'] + _real.SP_HARNESSES
+HARNESSES += [x for x in _real.HARNESSES if x['name'] == 'h_real'] + _real.SP_HARNESSES + _real.VBKADD_HARNESSES
 EXPLANATION = 'A two-level POP system built from the real templates (PopStateMachine, PopAwareForkResolutionComparator, CommandGroup, AddBlock, AddEndorsement, BaseBlockTree, real BTC tree) is executed symbolically; verdicts are compared with an independent integer specification of contextual validity.'
 ASSUMPTIONS = ['the protected tree is a toy instantiation of the real templates (EdBlock, harness command store); AltBlockTree/VbkBlockTree payload plumbing (AddVTB, payload stores, mempool) is outside',
                'ToyEd::setState/comparePopScore are copies of the AltBlockTree bodies', 'SP blocks have equal work and equal timestamps; SP best chain compared only when it is not a work tie']
